@@ -12,8 +12,9 @@
 (***************************************************************************)
 EXTENDS Props, Blame, Json, IOUtils
 
-VARIABLE l          \* position of the next event to be explained
-tvars == <<vars, l>>
+VARIABLE l,         \* position of the next event to be explained
+         sv         \* per stream-attached actor: stream items taken in a row although its mailbox was not empty
+tvars == <<vars, l, sv>>
 
 Rec == ndJsonDeserialize(IOEnv.TRACE)
 
@@ -42,7 +43,7 @@ IdleReason(prefix, a) ==
   ELSE prefix \o "closed"
 HeldAsChild(a) == \E p \in Actor : ~Terminated(p) /\ \E i \in 1..Len(act[p].kids) : act[p].kids[i].a = a
 
-TInit == EmptyInit /\ l = 1 /\ TLCSet(2, {}) /\ TLCSet(3, 1)
+TInit == EmptyInit /\ l = 1 /\ sv = [a \in Actor |-> 0] /\ TLCSet(2, {}) /\ TLCSet(3, 1)
 
 -----------------------------------------------------------------------------
 T_Reset == /\ IsEvent("reset")
@@ -311,7 +312,18 @@ T_Silent == /\ cur # None /\ ~yl /\ l' = l
 TNext == \/ T_Reset \/ T_Pick \/ T_Block \/ T_Exit \/ T_Yield \/ T_Advance \/ T_Cancel
          \/ T_OpBegin \/ T_OpEnd \/ T_Cb \/ T_HBegin \/ T_HEnd \/ T_HAbandon \/ T_Eff \/ T_DefaultNew \/ T_TimerFire
          \/ T_Quiescent \/ T_Silent \/ T_Unavailable
-TSpec == TInit /\ [][TNext]_tvars
+\* Fairness monitor (C13: "an explicit stop or handle drop terminates it even if the stream never ends").  The real
+\* loop picks between a ready mailbox and a ready stream at random (futures::select!), the specification leaves the
+\* choice open; a run in which the stream wins FairBound times in a row against a non-empty (or closed) mailbox has probability
+\* 2^-FairBound under the real tie-break and is rejected: the mailbox (and a stop request in it) is being starved.
+FairBound == 40
+SvNext == sv' = [a \in Actor |->
+            IF l' > l /\ E.ev = "reset" THEN 0
+            ELSE IF act'[a].sq.next > act[a].sq.next THEN (IF act[a].mq # <<>> \/ ~ChanOpen(a) THEN sv[a] + 1 ELSE 0)
+            ELSE IF Len(act'[a].mq) < Len(act[a].mq) \/ act'[a].pc \in {"done", "failed", "unborn"} THEN 0
+            ELSE sv[a]]
+C13_FairSelect == \A a \in Actor : sv[a] <= FairBound
+TSpec == TInit /\ [][TNext /\ SvNext]_tvars
 
 Track == TLCSet(3, IF l > TLCGet(3) THEN l ELSE TLCGet(3))
 
